@@ -160,6 +160,23 @@ def run(ck):
         src = make_config_source(contexts)
         expected = expected_direct(ck.runner, labelled, contexts)
         compare_run(ck, 'pandas', setname + '/labelled-index', labelled, contexts, run_frontend(ck.runner, 'pandas', labelled, src), expected)
+    # rows that are not in chronological order (windows are predicates on the time of each row, not slices)
+    shuffled = Table(5, missing={'a': {2}}, time_order=[2, 0, 4, 1, 3])
+    lite = {'a': ['gross', 'spike'], 'b': ['valid']}
+    for setname, contexts in (('closed-window', [dict(window=(t(1), t(4)), tests=lite)]), ('starting-only', [dict(window=(t(2), None), tests=lite)]),
+                              ('two-contexts', [dict(window=(t(0), t(2)), tests=lite), dict(window=(t(2), t(5)), tests=lite)])):
+        src = make_config_source(contexts)
+        expected = expected_direct(ck.runner, shuffled, contexts)
+        for fe in ('numpy', 'netcdf', 'pandas'):
+            compare_run(ck, fe, setname + '/unsorted-times', shuffled, contexts, run_frontend(ck.runner, fe, shuffled, src), expected)
+    # the same context (equal window) listed twice, not adjacently: all of its calls must still run
+    table = tables[0]
+    contexts = [dict(window=(t(0), t(2)), tests={'a': ['gross']}), dict(window=(t(2), t(5)), tests={'a': ['gross', 'spike']}),
+                dict(window=(t(0), t(2)), tests={'b': ['flat', 'valid']})]
+    src = make_config_source(contexts)
+    expected = expected_direct(ck.runner, table, contexts)
+    for fe in ('numpy', 'netcdf', 'pandas'):
+        compare_run(ck, fe, 'same-window-non-adjacent', table, contexts, run_frontend(ck.runner, fe, table, src), expected)
     # a frame with repeated row labels (two frames concatenated without ignore_index)
     dup = Table(5, missing={'a': {2}}, index_labels=[0, 1, 2, 0, 1])
     for setname, contexts in context_sets(False)[1:3]:
